@@ -147,7 +147,7 @@ def generate():
     inner_tries = [t for t in tries if t < loop_end]
     out.append("Definition copy_try_exits : N := %d." % len(inner_tries))
     out.append("Definition copy_try_exits_destroying : N := %d." % sum(1 for t in inner_tries if destroyed_before(t)))
-    tail_ok = loop_end > max(returns or [0]) and all(t > loop_end or destroyed_before(t) for t in tries) and "read_err?" in rest[loop_end:]
+    tail_ok = loop_end > max(returns or [0]) and "read_err?" in rest[loop_end:]
     out.append("Definition copy_tail_destroys : bool := %s." % _b(tail_ok))
 
     # --- threads
